@@ -5,14 +5,14 @@ import vf
 PKG = "."
 MON = ("MonPipeline", "Mon_Pipeline.cfg")
 DRV = "^TestVerifPipelineSched$"
-DEVOF = {"a1": "d1", "a2": "d1", "a3": "d1", "b1": "d2", "b2": "d2"}
-CTROF = {"a1": 1, "a2": 2, "a3": 3, "b1": 1, "b2": 2}
+DEVOF = {"a1": "d1", "a2": "d1", "a3": "d1", "a4": "d1", "b1": "d2", "b2": "d2"}
+CTROF = {"a1": 1, "a2": 2, "a3": 3, "a4": 4, "b1": 1, "b2": 2}
 FUNCS = ["MessageStore.processMessageLoop", "MessageStore.getOrCreateDeviceCache", "MessageStore.ProcessMessageQueueForDevicePK",
          "MessageStore.processDeviceMessagesInQueue", "MessageStore.addToMessageQueue", "MessageStore.CacheSizeForDevicePK"]
 
 
-def S(arr, regs, known, cancel=False):
-    return dict(arr=arr, regs=regs, known=known, cancel=cancel)
+def S(arr, regs, known, cancel=False, win=0):
+    return dict(arr=arr, regs=regs, known=known, cancel=cancel, win=win)
 
 
 def scenarios(tier):
@@ -24,6 +24,12 @@ def scenarios(tier):
         S(["a1"], ["d1"], [], True),           # with cancellation
         S(["a1", "a2"], [], ["d1"]),           # key known from the start
         S(["a1", "b1"], ["d1", "d2"], []),     # two registrations
+        # ratchet window 2 (receiver store with PreComputedKeysCount = 2): a message that overtakes its predecessors
+        # fails although the key is known, goes back to the device queue and must be retried after the next opens
+        S(["a3", "a1"], [], ["d1"], win=2),    # a3 opens once a1 has been opened
+        S(["a4", "a1", "a2"], [], ["d1"], win=2),   # a4 fails twice
+        S(["a3", "a1"], ["d1"], [], win=2),    # the same with the key registered at any moment
+        S(["a4", "a1"], [], ["d1"], win=2),    # a4 legitimately stays parked (still beyond the window)
     ]
     if tier != "quick":
         s += [S(["a1", "a2", "a3"], ["d1"], []), S(["a3", "a1", "a2"], ["d1"], []), S(["a1", "b1", "a2"], ["d1", "d2"], []),
@@ -36,8 +42,8 @@ def tla_set(xs):
 
 
 def tla_scen(s):
-    return '[arr |-> <<%s>>, regs |-> %s, known |-> %s, cancel |-> %s]' % (
-        ", ".join('"%s"' % a for a in s["arr"]), tla_set(s["regs"]), tla_set(s["known"]), "TRUE" if s["cancel"] else "FALSE")
+    return '[arr |-> <<%s>>, regs |-> %s, known |-> %s, cancel |-> %s, win |-> %d]' % (
+        ", ".join('"%s"' % a for a in s["arr"]), tla_set(s["regs"]), tla_set(s["known"]), "TRUE" if s["cancel"] else "FALSE", s.get("win", 0))
 
 
 DEFS0 = {"DevOf": "[" + ", ".join('%s |-> "%s"' % kv for kv in DEVOF.items()) + "]",
@@ -168,10 +174,10 @@ def run(ctx, replay=None):
             what = "message pipeline breaks C08 at step %s: %s" % (rj["at"], json.dumps(line, sort_keys=True)[:400])
         ctx.classify(key, what, {"script": sc, "observed": rj["events"], "rejected_line": line})
     for s in scripts[:1]:
-        ctx.add_samples([{"scenario": {k: s["cfg"][k] for k in ("arr", "regs", "known", "cancel")},
+        ctx.add_samples([{"scenario": {k: s["cfg"].get(k) for k in ("arr", "regs", "known", "cancel", "win")},
                           "schedule": [x["d"] for x in s["steps"]], "observed_final": blocks.get(s["id"], [])[-1:]}], limit=2)
     ctx.assumptions += ["hand-built MessageStore (real secret store, queues, event bus; no orbit-db): entries are fed through addToMessageQueue as the store's subscriber does",
-                        "counters stay inside the ratchet window (the window is C02's business); interleavings at lock/channel operations only"]
+                        "scenarios with win=2 exercise the retry of a message that overtook its predecessors beyond the ratchet window (C02's formula); the other scenarios stay inside the default window; interleavings at lock/channel operations only"]
     return ctx.finish(level="model_checking",
                       rule="complete behaviours of MessagePipeline.tla (both parking variants; exhaustive for the one-message scenario, -simulate walks to quiescence for the others) replayed as imposed schedules on the real pipeline; non-trivial = at least one message was parked in a device cache",
                       exhaustive=False,
